@@ -3,6 +3,7 @@ package puppet
 import (
 	"strings"
 	"sync"
+	"sync/atomic"
 	"time"
 )
 
@@ -184,6 +185,36 @@ func (a *Auto) Release(pred func(c *Call) bool) int {
 	for _, c := range rel {
 		a.answer(c)
 	}
+	return len(rel)
+}
+
+// ReleaseTogether lets all held calls return at the same instant: each gets its answer and then
+// waits on a common barrier, which is closed once all of them have been answered.
+func (a *Auto) ReleaseTogether() int {
+	a.mu.Lock()
+	var rel []*Call
+	for k, c := range a.held {
+		rel = append(rel, c)
+		delete(a.held, k)
+	}
+	a.mu.Unlock()
+	bar := new(int32)
+	for _, c := range rel {
+		r, ok := Result{}, false
+		if a.Answer != nil {
+			r, ok = a.Answer(c)
+		}
+		if !ok {
+			r = a.defaultResult(c)
+		}
+		r.Barrier = bar
+		a.mu.Lock()
+		a.logEv("exit", c, r.Res, r.NF)
+		a.mu.Unlock()
+		c.Reply <- r
+	}
+	time.Sleep(300 * time.Microsecond) // let every caller reach the barrier
+	atomic.StoreInt32(bar, 1)
 	return len(rel)
 }
 
